@@ -19,7 +19,8 @@ class InitSegment(DashElement):
     # ISO/IEC 14496-12: boxes that shall be present in the moov box of a
     # fragmented file. Each entry lists the alternatives that are allowed.
     MANDATORY_MOOV_BOXES: list[tuple[str, ...]] = [
-        ('mvhd',), ('mvex',), ('trex',), ('dinf',), ('stts',), ('stsc',),
+        ('mvhd',), ('mvex',), ('trex',), ('minf',), ('dinf',), ('stbl',),
+        ('stsd',), ('stts',), ('stsc',),
         ('stsz', 'stz2'), ('stco', 'co64'),
         ('vmhd', 'smhd', 'hmhd', 'sthd', 'nmhd'),
     ]
@@ -209,7 +210,8 @@ class InitSegment(DashElement):
                     f'DASH timescale {dash_timescale} and media timescale ' +
                     f'{media_timescale} are not multiples of each other'))
 
-        if self.parent.codecs:
+        if self.parent.codecs and self.elt.check_not_none(
+                dash_rep.codecs, msg='Failed to find the codec of the init segment'):
             self.elt.check_equal(
                 dash_rep.codecs.lower(), self.parent.codecs.lower(),
                 msg=f'Expected codec to be {self.parent.codecs} but found {dash_rep.codecs}')
@@ -233,9 +235,10 @@ class InitSegment(DashElement):
             if audioSamplingRate is None:
                 audioSamplingRate = self.parent.parent.audioSamplingRate
             if audioSamplingRate is not None:
+                sample_rate = getattr(dash_rep, 'sampleRate', None)
                 msg = (f'Expected audio sampling rate to be {audioSamplingRate} ' +
-                       f'but found {dash_rep.sampleRate}')
-                self.elt.check_equal(audioSamplingRate, dash_rep.sampleRate, msg=msg)
+                       f'but found {sample_rate}')
+                self.elt.check_equal(audioSamplingRate, sample_rate, msg=msg)
 
     def validate_pssh(self, pssh) -> None:
         self.elt.check_equal(len(pssh.system_id), 16)
